@@ -1011,3 +1011,62 @@ pub fn vset_live_files(options: DbOptions, levels: &[(usize, Vec<VFile>)]) -> (V
     live.sort();
     (installed, live)
 }
+
+/// `DB::remove_obsolete_files` on hand-made state: a version set whose current WAL number is `vs_curr_wal` (previous
+/// `vs_prev_wal`) with one live table `live_table` at level 1, `tables_in_use = {in_use}`, the guarded field
+/// `curr_wal_file_number = field_curr_wal`, optionally a recorded background error. `files` = (kind, number) created empty
+/// beforehand (kinds: "WriteAheadLog", "TableFile", "ManifestFile", "TempFile").
+/// Returns (manifest file number of the version set, files that still exist afterwards as "kind:number").
+pub fn remove_obsolete_scenario(
+    options: DbOptions,
+    vs_curr_wal: u64,
+    vs_prev_wal: Option<u64>,
+    field_curr_wal: u64,
+    live_table: u64,
+    in_use: u64,
+    bad_state: bool,
+    files: &[(String, u64)],
+) -> (u64, Vec<String>) {
+    let fnh = crate::file_names::FileNameHandler::new(options.db_path().to_string());
+    let fs = options.filesystem_provider();
+    let _ = fs.create_dir_all(&fnh.get_wal_dir());
+    let _ = fs.create_dir_all(&fnh.get_data_dir());
+    let tc = Arc::new(TableCache::new(options.clone(), 2));
+    let vs = VersionSet::new(options.clone(), Arc::clone(&tc));
+    let guarded = parking_lot::Mutex::new(GuardedDbFields::new_for_verif(vs));
+    let mut g = guarded.lock();
+    {
+        // make manifest numbers of the scenario smaller / larger than the version set's own manifest number meaningful
+        for _ in 0..500 {
+            g.version_set.get_new_file_number();
+        }
+        let mut m = VersionChangeManifest::default();
+        m.wal_file_number = Some(vs_curr_wal);
+        m.prev_wal_file_number = vs_prev_wal;
+        g.version_set.mark_file_number_used(live_table);
+        m.add_file(1, live_table, 10, InternalKey::new(vec![1], 5, Operation::Put)..InternalKey::new(vec![2], 4, Operation::Put));
+        let _ = VersionSet::log_and_apply(&mut g, &mut m);
+    }
+    g.set_for_remove_obsolete_verif(field_curr_wal, in_use, bad_state);
+    let path_of = |kind: &str, n: u64| match kind {
+        "WriteAheadLog" => fnh.get_wal_file_path(n),
+        "TableFile" => fnh.get_table_file_path(n),
+        "ManifestFile" => fnh.get_manifest_file_path(n),
+        _ => fnh.get_temp_file_path(n),
+    };
+    let manifest_number = g.version_set.get_manifest_file_number();
+    for (kind, n) in files {
+        if kind == "ManifestFile" && *n == manifest_number {
+            continue;
+        }
+        let _ = fs.create_file(&path_of(kind, *n), false);
+    }
+    crate::DB::remove_obsolete_files(&mut g, Arc::clone(&fs), &fnh, &tc);
+    let mut remaining = vec![];
+    for (kind, n) in files {
+        if fs.open_file(&path_of(kind, *n)).is_ok() {
+            remaining.push(format!("{}:{}", kind, n));
+        }
+    }
+    (manifest_number, remaining)
+}
